@@ -1408,12 +1408,56 @@ INLINE_CORPUS: List[Dict[str, Any]] = [
 ]
 
 
+def oracle_flow(ctx: Ctx, rng: Any, scratch: str, hist: Hist, res: OracleResult) -> None:
+    """the REAL connect() flow (asyncssh.connect through the in-memory pair) against `ssh -G`: host name, port and
+    user actually used.  A difference the two-pass model reproduces is the recorded final-pass defect (F27); any
+    other difference is a new finding."""
+    import getpass
+    lines, expect = flow_cases(ctx, rng, scratch, hist)
+    model = [flow_view(canon_model(m)) for m in ctx.model(DRIVER, lines)]
+    seen: Dict[str, int] = {}
+    for i, ((_name, case, impl), mod) in enumerate(zip(expect, model)):
+        res.evaluations += 1
+        if impl.startswith('exc') or not ssh_comparable(case):
+            hist.hit('flow-ssh:skipped')
+            continue
+        base = os.path.join(scratch, 'f%d' % i)
+        t = case['target']
+        sg = ssh_G([os.path.join(base, m) for m in case['main']], 'memhost', t.get('user'), t.get('port'))
+        if sg is None:
+            hist.hit('flow-ssh:ssh-rejects')
+            continue
+        d = dict(x.split('=', 1) for x in impl.split(' '))
+        diffs = []
+        if sg.get('hostname', [''])[0] != d.get('host'):
+            diffs.append(('Hostname', d.get('host'), sg.get('hostname')))
+        if sg.get('port', [''])[0] != d.get('port'):
+            diffs.append(('Port', d.get('port'), sg.get('port')))
+        su = sg.get('user', [''])[0]
+        if not (su == getpass.getuser() and d.get('user') == g.LOCAL_USER) and su != d.get('user'):
+            diffs.append(('User', d.get('user'), sg.get('user')))
+        hist.hit('flow-ssh:' + ('differs' if diffs else 'ok'))
+        if not diffs:
+            continue
+        sig = 'ssh-G:final-pass-restarts-instead-of-keeping-first-values' if impl == mod else \
+            'connect-flow:differs-from-ssh-and-from-the-two-pass-model'
+        seen[sig] = seen.get(sig, 0) + 1
+        if seen[sig] <= 3:
+            res.failures.append(Failure(
+                signature=sig,
+                what='asyncssh.connect() used %s where `ssh -G` resolves %s; files %s target %s'
+                     % ([(n, a) for n, a, _b in diffs], [(n, b) for n, _a, b in diffs],
+                        json.dumps(case['files'])[:500], t),
+                replay={'kind': 'connect-flow', 'case': case}))
+
+
 def oracle(ctx: Ctx) -> OracleResult:
     res = OracleResult()
     hist = Hist()
     rng = ctx.subrng('oracle')
     scratch = ctx.tmpdir()
     oracle_ssh(ctx, rng, os.path.join(scratch, 'ssh'), hist, res)
+    oracle_flow(ctx, rng, os.path.join(scratch, 'flow'), hist, res)
     oracle_metamorphic(ctx, rng, os.path.join(scratch, 'meta'), hist, res)
     oracle_users(ctx, rng, os.path.join(scratch, 'usr'), hist, res)
     res.histogram = dict(hist)
